@@ -42,9 +42,19 @@ fn add_variant(e: &Envelope, a: &Envelope, rng: &mut Rng) -> Envelope {
         3 => e.add_assertion_envelopes(&[a.clone()]).unwrap(),
         4 => e.add_assertions(&[a.clone()]),
         5 => e.add_assertions_salted(&[a.clone()], false),
-        6 => e.add_assertion_envelope_if(true, a.clone()).unwrap(),
+        6 => {
+            // the conditional forms: false is the identity, true adds
+            let same = e.add_assertion_envelope_if(false, a.clone()).unwrap();
+            assert!(same.is_identical_to(e), "add_assertion_envelope_if(false) changed the envelope");
+            e.add_assertion_envelope_if(true, a.clone()).unwrap()
+        }
         _ => match (a.as_predicate(), a.as_object()) {
-            (Some(p), Some(o)) => match rng.below(3) {
+            (Some(p), Some(o)) => match rng.below(4) {
+                3 => {
+                    let same = e.add_assertion_if(false, p.clone(), o.clone());
+                    assert!(same.is_identical_to(e), "add_assertion_if(false) changed the envelope");
+                    e.add_assertion_if(true, p, o)
+                }
                 0 => e.add_assertion(p, o),
                 1 => e.add_assertion_salted(p, o, false),
                 _ => e.add_optional_assertion(p, Some(o)),
@@ -338,6 +348,25 @@ pub fn run(ctx: &mut Ctx) {
         ctx.count("receiver_unchanged_checked");
         if env_bytes(&e) != before {
             ctx.violation("receiver-mutated/catalogue", "an operation changed its receiver", replay("catalogue"));
+        }
+        // convenience constructors / adders agree with the plain ones
+        {
+            ctx.eval();
+            ctx.count("convenience_constructors_checked");
+            let txt = format!("v{}", case);
+            let ok = env_bytes(&Envelope::new_or_null(Some(txt.clone()))) == env_bytes(&Envelope::new(txt.clone()))
+                && env_bytes(&Envelope::new_or_null(None::<String>)) == env_bytes(&Envelope::null())
+                && Envelope::new_or_none(None::<String>).is_none()
+                && Envelope::new_or_none(Some(txt.clone())).map(|x| env_bytes(&x)) == Some(env_bytes(&Envelope::new(txt.clone())))
+                && env_bytes(&e.add_nonempty_string_assertion("note", "")) == env_bytes(&e)
+                && env_bytes(&e.add_nonempty_string_assertion("note", txt.as_str())) == env_bytes(&e.add_assertion("note", txt.as_str()))
+                && env_bytes(&e.add_optional_assertion("opt", None::<String>)) == env_bytes(&e)
+                && env_bytes(&e.add_optional_assertion_envelope(None).unwrap()) == env_bytes(&e)
+                && env_bytes(&Envelope::r#true()) == env_bytes(&Envelope::new(true))
+                && env_bytes(&Envelope::r#false()) == env_bytes(&Envelope::new(false));
+            if !ok {
+                ctx.violation("convenience-constructor-differs", "a convenience constructor / conditional adder disagrees with the plain form", replay("convenience"));
+            }
         }
         // equal values -> equal bytes: unordered collections
         collections(ctx, &mut rng, case);
